@@ -34,6 +34,8 @@ fn run_case(case: &str) -> String {
             }
         }
         Some("R") => f.len() == 4,
+        // N lo hi: ANY pair of u16 values (the constructor decides; refused ranges are part of the quantifier)
+        Some("N") => f.len() == 3 && hexok(f[1]) && hexok(f[2]) && f[1..].iter().all(|x| u64::from_str_radix(x, 16).unwrap() <= 65535),
         _ => false,
     };
     if !wellformed {
@@ -65,7 +67,12 @@ fn run_case(case: &str) -> String {
         "I" | "D" => {
             let (n, s, lo, hi) = (h(f[1]) as u16, h(f[2]) as u32, h(f[3]) as u16, h(f[4]) as u16);
             let sh = sharder(n, 0);
-            let range = ShardAwarePortRange::new(lo..=hi).unwrap();
+            // every case has 1024 <= lo <= hi (checked above): the documented constructor accepts it.
+            // A refusal is an observation ("nothing is produced"), judged by the driver, not a runner failure.
+            let range = match ShardAwarePortRange::new(lo..=hi) {
+                Ok(r) => r,
+                Err(_) => return "rejected".into(),
+            };
             if f[0] == "I" {
                 match catch(move || hooks::iter_source_ports_for_shard_from_range(&sh, s, &range)) {
                     Ok(v) => hex_list(&v),
@@ -77,6 +84,16 @@ fn run_case(case: &str) -> String {
                     Ok(None) => "none".into(),
                     Err(_) => "panic".into(),
                 }
+            }
+        }
+        "N" => {
+            // the real constructor on lo..=hi; the accepted range's bounds are private, what it hands on is
+            // observed by the I / D cases
+            let (lo, hi) = (h(f[1]) as u16, h(f[2]) as u16);
+            match catch(move || ShardAwarePortRange::new(lo..=hi).is_ok()) {
+                Ok(true) => "ok".into(),
+                Ok(false) => "rejected".into(),
+                Err(_) => "panic".into(),
             }
         }
         "R" => {
@@ -267,6 +284,52 @@ fn main() {
         for shard in [nr.saturating_sub(1), nr, nr + 1] {
             if shard > 65536 { continue; }
             let c = format!("R V:{} V:{} V:{}", enc_str(&shard.to_string()), enc_str(&nr.to_string()), enc_str("12"));
+            let o = run_case(&c);
+            out.case(&c, &o);
+        }
+    }
+    // ShardAwarePortRange::new (kind N): a fixed number of cases from an own generator (the main stream below is
+    // not disturbed): every (lo, hi) pair of the boundary values, lo = hi, hi = lo - 1 and hi = lo + 1 around them,
+    // seeded random pairs (any order), random lo = hi, random hi = lo - 1, random pairs straddling 1024
+    {
+        const B: [u16; 9] = [0, 1, 1022, 1023, 1024, 1025, 49152, 65534, 65535];
+        let mut cases: Vec<(u16, u16)> = Vec::new();
+        for lo in B {
+            for hi in B {
+                cases.push((lo, hi));
+            }
+        }
+        for b in B {
+            for d in 0..=3u16 {
+                let lo = b.saturating_add(d).max(1);
+                cases.push((lo, lo));
+                cases.push((lo, lo - 1));
+                cases.push((lo.min(65534), lo.min(65534) + 1));
+            }
+        }
+        let mut rn = Rng::new(a.seed ^ 0x4e5f_c11b_0000_0001);
+        let n_rand = if a.tier == "thorough" { 20000 } else { 2000 };
+        for i in 0..n_rand {
+            cases.push(match i % 5 {
+                0 => (rn.range(0, 65535) as u16, rn.range(0, 65535) as u16),
+                1 => {
+                    let lo = rn.range(0, 65535) as u16;
+                    (lo, lo)
+                }
+                2 => {
+                    let lo = rn.range(1, 65535) as u16;
+                    (lo, lo - 1)
+                }
+                3 => (rn.range(1000, 1050) as u16, rn.range(1000, 65535) as u16),
+                _ => {
+                    let x = rn.range(0, 65535) as u16;
+                    let y = rn.range(0, 65535) as u16;
+                    (x.min(y), x.max(y))
+                }
+            });
+        }
+        for (lo, hi) in cases {
+            let c = format!("N {} {}", hex_u(lo as u128), hex_u(hi as u128));
             let o = run_case(&c);
             out.case(&c, &o);
         }
